@@ -408,10 +408,23 @@ func Within(d time.Duration, fn func()) bool {
 		defer close(done)
 		fn()
 	}()
+	// the time is granted in 120 slices; a slice that took far longer than it should (the process or the whole
+	// machine was stopped, the clock stepped) counts as one slice: fn could not run in that time either
+	step := d / 120
+	if step < 10*time.Millisecond {
+		step = 10 * time.Millisecond
+	}
+	for granted := time.Duration(0); granted < d; granted += step {
+		select {
+		case <-done:
+			return true
+		case <-time.After(step):
+		}
+	}
 	select {
 	case <-done:
 		return true
-	case <-time.After(d):
+	default:
 		return false
 	}
 }
